@@ -38,6 +38,14 @@ def scenarios(rng, tier):
     two = [x + "LKEF" for x in gen.star(rng, 150, 90, gen.AA) + gen.star(rng, 150, 90, gen.AA)]
     rng.shuffle(two)
     S.append(dict(id="km2fam", kind="protein", seqs=two, names=gen.names(rng, 300), type=5))
+    # pairs of tandem-repeat sequences with an overhang, the longer one exactly as long as the DP state arrays grow
+    # (256 x 1.5^k = 576, 864, 1296, ...) and the shorter one above the 500-row switch: the forward and the backward pass of
+    # one Hirschberg step must not share state at such a boundary
+    for L, k in ([(576, 14), (864, 24)] if tier == "quick" else [(575, 14), (576, 14), (577, 14), (864, 24), (1296, 38), (1944, 60)]):
+        for r in range(2 if tier == "quick" else 3):
+            unit = gen.rand_seq(rng, gen.AA, 30)
+            tail = gen.rand_seq(rng, gen.AA, L - 30 * k)
+            S.append(dict(id="rep%d_%d" % (L, r), kind="protein", seqs=[unit * (k - 1) + tail, unit * k + tail], names=["a", "b"], type=5))
     if tier != "quick":
         four = gen.star(rng, 120, 60, gen.DNA, 0.3) + gen.star(rng, 120, 60, gen.DNA, 0.3) + gen.star(rng, 120, 70, gen.DNA, 0.3) + gen.star(rng, 120, 50, gen.DNA, 0.3)
         rng.shuffle(four)
